@@ -64,6 +64,20 @@ PROPS = {
         "assumptions": ["broker acknowledges every chunk immediately", "a Flush with an already cancelled context may legitimately cut or not cut (Go select picks at random); both are accepted",
                         "interval latency is judged with 2 s slack; a miss is reported only if it exceeds interval + slack"],
     },
+    "C06": {
+        "level": "exploration",
+        "groups": [g("main", "c06", q=8, t=32, run="^Test(Prop)$", gomaxprocs=[4, 1, 2, 16])],
+        "timeout": {"quick": 300, "thorough": 1800},
+        "rule": ("generated: wire.Connect over an in-memory link (both codecs), keepalive pings every 2 ms; 2-32 concurrent callers with a mix of upstream/"
+                 "downstream open, resume, close and metadata requests, issued for 1-3 rounds on the same connection; the scripted peer collects all "
+                 "requests of a round, then answers in a generated permutation with generated delays, each response carrying a marker derived from "
+                 "the request id; extras: responses for ids never issued (odd, huge), second copies of answered ids, cancellation of callers before "
+                 "the request is written / while waiting / racing with the answer. Oracle: ids at the peer pairwise distinct and even (connect and "
+                 "pings included); a nil return holds the response with the caller's own id and marker and the peer saw that id from that caller; "
+                 "cancelled callers get their context error; nobody else is disturbed; all return. Non-trivial = >= 3 requests outstanding and "
+                 "answered out of order; distinct by case hash."),
+        "assumptions": ["type-confused responses (right id, wrong type) belong to C12", "a caller cancelled while its answer is in flight may return either its context error or its own response"],
+    },
     "C11": {
         "level": "exploration",
         "groups": [g("main", "c11", q=4, t=16, run="^Test(SelfRegistry|Grid|EnumTotality|Random|TransportCounters)$")],
